@@ -349,6 +349,40 @@ class Gen:
                 t = bytearray(bytes.fromhex(ct)); t[-1 - self.r.below(16)] ^= 1 << self.r.below(8)
                 self.add("a_cbcpad dec %s %s %s 0" % (hexs(k), hexs(iv), hexs(bytes(t))), "a_cbcpad:dec:k%d:tampered" % len(k))
 
+    def wave5(self):
+        """(a) block_cipher.c aes128 object (dead code unless compiled with -DENABLE_AES);
+        (b) decrypt direction in place: outside the property text, reported as OBSERVATION;
+        (c) XTS streaming over several data units with the update boundary at every position"""
+        r = self.r
+        k = bytes(range(16))
+        self.add("bca enc %s 00112233445566778899aabbccddeeff" % hexs(k), "bca:enc:fips197")
+        self.add("bca dec %s 69c4e0d86a7b0430d8cdb78070b4c55a" % hexs(k), "bca:dec:aes128-dispatch-dead-code")
+        for i in range(20):
+            self.add("bca enc %s %s" % (hexs(r.bytes(16)), hexs(r.bytes(16))), "bca:enc:random")
+            self.add("bca dec %s %s" % (hexs(r.bytes(16)), hexs(r.bytes(16))), "bca:dec:aes128-dispatch-dead-code")
+        for n in (16, 32, 48, 50, 64, 100):
+            key, iv, m = self.key(), r.bytes(16), r.bytes(n)
+            hk, hiv = hexs(key), hexs(iv)
+            d = m[:n - n % 16]
+            for s_ in (1, 3, 8, 16):
+                self.add("cfb dec %d %s %s %s 1" % (s_, hk, hiv, hexs(m)), "cfb:dec:s=%d:dec-inplace" % s_)
+            self.add("cbcblocks dec %s %s %s 1" % (hk, hiv, hexs(d)), "cbcblocks:dec:dec-inplace")
+            self.add("ecbblocks dec %s %s 1" % (hk, hexs(d)), "ecbblocks:dec:dec-inplace")
+            self.add("xts dec %s %s %s %s 1" % (hk, hexs(r.bytes(16)), hiv, hexs(m)), "xts:dec:dec-inplace")
+            self.add("a_cbcblocks dec %s %s %s 1" % (hk, hiv, hexs(d)), "a_cbcblocks:dec:dec-inplace")
+        # XTS: 3 data units, every two-way boundary, plus three-way boundaries inside different units
+        for dus in (16, 20, 33):
+            key32, iv = r.bytes(32), r.bytes(16)
+            m = r.bytes(3 * dus)
+            for off in range(0, 3 * dus + 1):
+                for dr in ("enc", "dec"):
+                    cls = "unit-boundary" if off % dus == 0 else "inside-unit%d" % (off // dus)
+                    self.add("s_xts %s %s %s %d %s" % (dr, hexs(key32), hexs(iv), dus, chunks_str([m[:off], m[off:]])), "s_xts:%s:split2:%s" % (dr, cls))
+            for i in range(12 if not self.thorough else 60):
+                a = r.range(1, dus - 1); b = dus + r.range(1, dus - 1) if r.chance(1, 2) else 2 * dus + r.range(1, dus - 1)
+                for dr in ("enc", "dec"):
+                    self.add("s_xts %s %s %s %d %s" % (dr, hexs(key32), hexs(iv), dus, chunks_str([m[:a], m[a:b], m[b:]])), "s_xts:%s:split3:inside-units" % dr)
+
     def padding_cases(self, impl_exe):
         """the case split of PKCS#7 removal (sm4: every padding byte, since 75d04f0; aes: last byte only):
         chosen final plaintext blocks are encrypted without padding by the implementation's raw CBC block
@@ -417,6 +451,8 @@ class Gen:
 
 
 PAIR = re.compile(r"(\d+):(\d+)")
+# cell classes (last component of the cell key) whose disagreements are observations, not violations
+OBSERVE = ("dec-inplace", "aes128-dispatch-dead-code")
 
 
 def oracle(line, a, b):
@@ -455,10 +491,13 @@ def run(ctx):
         ctx.cell("tables:sm4:all-entries")
     variants = ["asan"] if ctx.tier == "quick" else ["asan", "small", "aesni", "avx2"]
     g = Gen(ctx)
-    g.block_cipher(); g.dense(); g.chunkings(); g.counters(); g.malformed(); g.aes_modes()
+    g.block_cipher(); g.dense(); g.chunkings(); g.counters(); g.malformed(); g.aes_modes(); g.wave5()
     model_out = None
     for v in variants:
-        exe, log = core.build_harness("C04", v)
+        # block_cipher.c is compiled a second time with -DENABLE_AES (CMakeLists.txt never defines the macro,
+        # so the aes128 object is dead code in every library build); the static library's copy is not pulled in
+        exe, log = core.build_harness("C04", v, sources=[os.path.join(core.ROOT, "props", "C04", "harness.c"),
+                                                         os.path.join(core.REPO, "src", "block_cipher.c")], extra="-DENABLE_AES")
         if exe is None:
             if v == "asan":
                 core.harness_build_failed(ctx, log)
@@ -494,6 +533,16 @@ def compare(ctx, cases, impl_exe, model_out, variant):
                           {"kind": "model", "op": line, "model": b}, found_input=False)
             continue
         verdict = oracle(line, a, b)
+        if verdict is not None and cell.split(":")[-1] in OBSERVE:
+            # outside the property text (decrypt-direction aliasing; code no build compiles): never a violation
+            if not hasattr(ctx, "observations"):
+                ctx.observations = []
+            ctx.count("observation:" + cell)
+            if not any(o["key"] == cell + tag for o in ctx.observations):
+                ctx.observations.append({"key": cell + tag, "variant": variant, "op": line[:400], "impl": a[:200], "model": b[:200]})
+                print("OBSERVATION: property=%s key=%s [%s] outside the property text (not a violation): op `%s` impl=%s model=%s"
+                      % (ctx.prop, cell + tag, variant, line[:120], a[:60], b[:60]))
+            continue
         if verdict is None:
             ctx.cell(cell + tag + (":ERR" if a.startswith("ERR") or a.endswith(" ERR") else ":ok"))
             if i % max(1, len(cases) // 6) == 0 and variant == "asan":
@@ -517,5 +566,6 @@ def finish(ctx):
     ]
     return ctx.finish(level="proof",
                       rule="cases = block cipher (standard vector, sparse, byte sweep, random) + per mode: every length 0..130 (0..520 thorough) dense, block-boundary triples up to 4096 (thorough: every length 0..4096 once, the modes taking turns), all CFB s=1..16, exhaustive 2-way splits of 50 bytes, random k-way chunkings with empty chunks, in-place (one-shot and block-aligned streaming, encrypt direction), counters at 2^32/2^64/2^128 wrap, XTS tweak carries, malformed lengths/parameters, tampered CBC ciphertexts; a cell = (op, direction/width/segment class, length/chunking/boundary class, ok|ERR); distinct_nontrivial = number of distinct cells on which impl and model agreed and the size oracle held",
+                      extra={"observations": getattr(ctx, "observations", [])},
                       trusted=core.TRUSTED_COMMON + ["tools/consts_sm4.py (regex copy of S, FK, CK, T0..T3 from src/sm4.c into coq/Gen/Sm4Tables.v)",
                                                      "Coq files: Cipher/SM4.v SM4Tab.v Modes.v SM4Modes.v Gen/Sm4Tables.v (models), BitsX.v SM4Proofs.v ModesProofs.v SM4ModesProofs.v (proofs), Props/Properties_C04.v"])
